@@ -94,6 +94,9 @@ pub struct CommitSpec {
     pub leaf_ext: Option<u8>,
     pub aad_len: u8,
     pub detached: bool,
+    /// list the resumption PSKs before the external ones (C13 / C18: the order of the PSK proposals matters)
+    #[serde(default)]
+    pub res_first: bool,
     pub reinit: Option<u16>,
     /// per-commit options (buggify knobs)
     pub path_required: bool,
